@@ -88,6 +88,29 @@ def judge_io(shape, dtype, name_off, fmt, tmpdir):
     return out
 
 
+def judge_io_overwrite(shape, dt_first, dt_second, fmt, tmpdir):
+    """write grid A, then grid B (same shape, other dtype/values) to the SAME file with overwrite=True: read == B"""
+    from nuspacesim.utils.grid import NssGrid
+
+    a = mk_grid(tuple(shape), dt_first, 0)
+    b = mk_grid(tuple(shape), dt_second, 0)
+    b = NssGrid(np.asarray(b.data) + (0.25 if dt_second.startswith("f") else 1), b.axes, b.axis_names)
+    fn = os.path.join(tmpdir, f"ow_{dt_first}_{dt_second}.{'h5' if fmt == 'hdf5' else 'fits'}")
+    if os.path.exists(fn):
+        os.remove(fn)
+    try:
+        a.write(fn, format=fmt)
+        b.write(fn, format=fmt, overwrite=True)
+        r = NssGrid.read(fn, format=fmt)
+    except Exception as ex:
+        return [("io_overwrite", "read(write(b, overwrite)) == b", f"{type(ex).__name__}: {str(ex)[:100]}")]
+    out = []
+    rd, bd = np.asarray(r.data), np.asarray(b.data)
+    if rd.shape != bd.shape or not np.array_equal(rd, bd) or (rd.dtype.kind, rd.dtype.itemsize) != (bd.dtype.kind, bd.dtype.itemsize):
+        out.append(("io_overwrite", f"{bd.dtype} data of the second grid", f"{rd.dtype}, equal={np.array_equal(rd, bd) if rd.shape == bd.shape else False}"))
+    return out
+
+
 def slice_grid(which):
     from importlib.resources import files
 
@@ -284,6 +307,14 @@ def run(ctx):
                     ctx.tick(1, ("io_case", shape, off, fmt))
                     for c, e, o in v:
                         ctx.violation(c, {"kind": "io", "shape": list(shape), "dtype": "f8", "name_off": off, "fmt": fmt}, e, o)
+        for shape in [(3,), (2, 3)]:
+            for d1, d2 in itertools.permutations(DTYPES, 2):
+                for fmt in ("hdf5", "fits"):
+                    v = judge_io_overwrite(shape, d1, d2, fmt, tmp)
+                    n_io += 1
+                    ctx.tick(1, ("io_overwrite", len(shape), d1, d2, fmt))
+                    for c, e, o in v:
+                        ctx.violation(c, {"kind": "io_ow", "shape": list(shape), "d1": d1, "d2": d2, "fmt": fmt}, e, o)
         ctx.cov["io_roundtrips"] = n_io
         ctx.sample({"kind": "io", "shape": [2, 3], "dtype": "i2", "names": [NAMES[2], NAMES[3]], "fmt": "fits"})
         # (b) slicing
@@ -373,6 +404,12 @@ def replay(case):
         tmp = tempfile.mkdtemp(prefix="nssmc_c18r_")
         try:
             return judge_io(tuple(case["shape"]), case["dtype"], case["name_off"], case["fmt"], tmp)
+        finally:
+            shutil.rmtree(tmp, ignore_errors=True)
+    if k == "io_ow":
+        tmp = tempfile.mkdtemp(prefix="nssmc_c18r_")
+        try:
+            return judge_io_overwrite(tuple(case["shape"]), case["d1"], case["d2"], case["fmt"], tmp)
         finally:
             shutil.rmtree(tmp, ignore_errors=True)
     if k == "slice":
